@@ -892,7 +892,7 @@ func main() {
 		}
 	}
 
-	nd := f.N(2500, 60000)
+	nd := f.N(2500, 40000)
 	for i := 0; i < nd; i++ {
 		misuse := i%10 == 9
 		dc, impl, d := genDir(r, misuse)
@@ -903,14 +903,14 @@ func main() {
 		emitDir(w, dc, impl, d, class)
 	}
 
-	nt := f.N(40, 600)
+	nt := f.N(40, 400)
 	for i := 0; i < nt; i++ {
 		cfg := traceCfg{Cap: int64(r.Range(1, 4)), Batchdiv: gen.Pick(r, []int{0, 1, 2, 4}), Workers: r.Range(2, 12),
 			Rounds: r.Range(3, 25), Seed: r.U64()}
 		emitTrace(w, cfg, "trace")
 	}
 
-	ne := f.N(12, 150)
+	ne := f.N(12, 100)
 	for i := 0; i < ne; i++ {
 		cfg := e2eCfg{Cap: int64(r.Range(1, 4)), Batchdiv: gen.Pick(r, []int{0, 1, 2}), InteractiveUs: gen.Pick(r, []int{0, 0, 50, 500}),
 			Shards: r.Range(1, 12), Clients: r.Range(2, 10), Requests: r.Range(5, 30), Seed: r.U64()}
